@@ -1256,6 +1256,7 @@ func (c *conn) run(pc *protocol.Conn, reqs <-chan connRequest) {
 
 	for cr := range reqs {
 		r, err := c.roundTrip(cr.ctx, pc, cr.req)
+		verifPoint("transport.conn.afterRoundTrip")
 		if err != nil {
 			cr.res.reject(err)
 			if !errors.Is(err, protocol.ErrNoRecord) {
